@@ -33,7 +33,9 @@ def step (st : DState) (line : String) : DState × String :=
     | _, _ => (st, "bad-op")
   | ["rem", k] =>
     match parseInt? k with
-    | some k => let (t', c) := t.remove cmp k; ({ st with tree := t' }, "c=" ++ toString c)
+    | some k =>
+      let (t', c) := t.remove cmp k
+      ({ st with tree := t' }, (if t'.count != t.count then "removed" else "absent") ++ " c=" ++ toString c)
     | _ => (st, "bad-op")
   | ["get", k] =>
     match parseInt? k with
